@@ -79,7 +79,13 @@ fn main() {
         c01::trace(&p, p.only_case.unwrap_or(0));
         return;
     }
-    match p.prop.as_str() {
+    if p.prop == "C19CHILD" {
+        c19::child(&p);
+        return;
+    }
+    // a panic that escapes a monitor: inside the library it is an observation about the code under test (reported with the
+    // case that was running); inside the harness it is a failure of the machinery and makes the run inconclusive
+    let escaped = guard(|| match p.prop.as_str() {
         "C01" => c01::run(&p, &mut rep),
         "C02" => c02::run(&p, &mut rep),
         "C03" => c03::run(&p, &mut rep),
@@ -100,13 +106,17 @@ fn main() {
         "C18" => c18::run(&p, &mut rep),
         "C19" => c19::run(&p, &mut rep),
         "C20" => c20::run(&p, &mut rep),
-        "C19CHILD" => {
-            c19::child(&p);
-            return;
-        }
         other => {
             eprintln!("no monitor for {}", other);
             std::process::exit(3);
+        }
+    });
+    if let Err(pn) = escaped {
+        if pn.loc.starts_with("/repo/") {
+            let case = rep.current_case.clone();
+            rep.violation(format!("{}/panic-in-the-library-while-monitoring/{}", p.prop, pn.class()), serde_json::json!({"panic": pn.msg, "at": pn.loc, "case": case}));
+        } else {
+            rep.inconclusive = Some(format!("the monitor itself panicked at {}: {}", pn.loc, pn.msg));
         }
     }
     rep.extra.insert(
